@@ -34,7 +34,7 @@ NP_RE = re.compile(r"""^\$(?:\[(?:0|[1-9][0-9]*)\]|\['(?:[\x20-\x26\x28-\x5b\x5d
 
 def plan(tier, seed):
     n = 15 if tier == "quick" else 46
-    return [{"kind": "w0"}] + [{"n": 500 if tier == "quick" else 2500, "profile": ["unique", "mixed"][i % 2]} for i in range(n)]
+    return [{"kind": "w0"}] + [{"n": 500 if tier == "quick" else 10000, "profile": ["unique", "mixed"][i % 2]} for i in range(n)]
 
 
 def install():
